@@ -240,3 +240,42 @@ func RWideSpec() *ref.Struct {
 	s.SortFields()
 	return s
 }
+
+// DfltRev declares its fields in an order different from their ids, with pairwise different
+// defaults: defaults must follow the field, not the position of its declaration.
+type DfltRev struct {
+	Port   int32   `frugal:"2,optional,i32"`
+	Weight int32   `frugal:"1,optional,i32"`
+	Name   string  `frugal:"4,optional,string"`
+	Host   string  `frugal:"3,optional,string"`
+	Ratio  float64 `frugal:"6,optional,double"`
+	Scale  float64 `frugal:"5,optional,double"`
+}
+
+func (p *DfltRev) InitDefault() {
+	p.Port, p.Weight, p.Name, p.Host, p.Ratio, p.Scale = 8080, 10, "nm", "host", 1.5, 0.25
+}
+
+// DfltRevOuter nests DfltRev where the decoder creates structs, including as a map key.
+type DfltRevOuter struct {
+	P  *DfltRev           `frugal:"1,optional,DfltRev"`
+	L  []*DfltRev         `frugal:"2,default,list<DfltRev>"`
+	K  map[*DfltRev]int32 `frugal:"3,default,map<DfltRev:i32>"`
+	MV map[string]DfltRev `frugal:"4,default,map<string:DfltRev>"`
+}
+
+// DfltRevSpecs returns the specs of DfltRev and DfltRevOuter.
+func DfltRevSpecs() (*ref.Struct, *ref.Struct) {
+	O, D := ref.ReqOptional, ref.ReqDefault
+	d := StaticSpec(reflect.TypeOf(DfltRev{}), "DfltRev", []*ref.Field{
+		{Name: "Weight", ID: 1, Req: O, Type: Sc(ref.KI32), Default: ref.Int(ref.KI32, 10)}, {Name: "Port", ID: 2, Req: O, Type: Sc(ref.KI32), Default: ref.Int(ref.KI32, 8080)},
+		{Name: "Host", ID: 3, Req: O, Type: Sc(ref.KString), Default: ref.Str("host")}, {Name: "Name", ID: 4, Req: O, Type: Sc(ref.KString), Default: ref.Str("nm")},
+		{Name: "Scale", ID: 5, Req: O, Type: Sc(ref.KDouble), Default: ref.Double(0.25)}, {Name: "Ratio", ID: 6, Req: O, Type: Sc(ref.KDouble), Default: ref.Double(1.5)},
+	})
+	d.HasInit = true
+	o := StaticSpec(reflect.TypeOf(DfltRevOuter{}), "DfltRevOuter", []*ref.Field{
+		{Name: "P", ID: 1, Req: O, Type: StPtr(d)}, {Name: "L", ID: 2, Req: D, Type: ListOf(StPtr(d))},
+		{Name: "K", ID: 3, Req: D, Type: MapOf(StPtr(d), Sc(ref.KI32))}, {Name: "MV", ID: 4, Req: D, Type: MapOf(Sc(ref.KString), StVal(d))},
+	})
+	return d, o
+}
